@@ -122,4 +122,14 @@ mod c08ext {
         static RAW: [u8; 5] = [0x7f, 0xff, 0xff, 0xff, 0x00];
         let _r = std::mem::ManuallyDrop::new(decompress(&RAW[..], Compression::Lz4));
     }
+    /// a Snappy body whose length header (varint) announces 2 GiB - 1 of uncompressed data, followed by one byte
+    #[kani::proof]
+    #[kani::unwind(8)]
+    #[kani::stub(std::rt::thread_cleanup, noop)]
+    #[kani::stub(alloc::fmt::format, empty_string)]
+    #[kani::stub(std::vec::from_elem, from_elem_in_proportion)]
+    fn c08_snappy_uncompressed_len_alloc() {
+        static RAW: [u8; 6] = [0xff, 0xff, 0xff, 0xff, 0x07, 0x00];
+        let _r = std::mem::ManuallyDrop::new(decompress(&RAW[..], Compression::Snappy));
+    }
 }
